@@ -33,6 +33,12 @@ fcppt::options::impl::is_flag(fcppt::string_view const &_value)
 
   ++pos;
 
+  // A lone dash: do not look at the character behind the end of the view.
+  if (pos == _value.end())
+  {
+    return result_type{std::make_pair(fcppt::options::detail::flag_is_short{true}, fcppt::string{})};
+  }
+
   return result_type{
       is_dash(*pos)
           ? std::make_pair(
